@@ -1,6 +1,10 @@
 # -*- coding: utf-8 -*-
 """C18 - lookup functions return the addressed element or an error, never another one
-(CHOOSE, INDEX, MATCH of hotxlfp/formulas/lookupandreference.py)"""
+(CHOOSE, INDEX, MATCH of hotxlfp/formulas/lookupandreference.py)
+
+case kinds: choose (CHOOSE(i,v1..vn)), index (INDEX on a variable / literal / range value, src = var / lit / range),
+match (MATCH(x,A[,t]); with `pre` a criteria function or a MATCH in another letter case is evaluated first on the same
+array and text), im (INDEX(A,MATCH(x,A,0))), fn (direct call of one of the three functions, model comparison only)"""
 import itertools
 
 from .. import common, fx
@@ -11,39 +15,95 @@ LEAN_MODULES = ['HotXL.Props.C18']
 FUNCTIONS = ['hotxlfp.formulas.lookupandreference:CHOOSE', 'hotxlfp.formulas.lookupandreference:MATCH',
              'hotxlfp.formulas.lookupandreference:INDEX', 'hotxlfp.formulas.utils:parse_number',
              'hotxlfp.helper.number:to_number']
-RULE = ('INDEX: arrays of every shape 1..8 x 1..8 and every length 1..8 (thorough; a fixed sample of shapes incl. 1x1, 1xN, Nx1, '
-        '8x8 in quick), filled with pairwise distinct numbers (ints, negatives, 0, dyadic fractions) or pairwise distinct text, '
-        'supplied as a list-valued variable; for each array ALL index pairs (r, c) with r in -10..rows+10, c in -10..cols+10 and '
-        'ALL single indices, in the forms INDEX(A,r,c), INDEX(A,r), INDEX(A,r,), INDEX(A,,c), INDEX(A), INDEX(A,), INDEX(A,,); '
-        'the same arrays as array literals (1-D with , or ; and two-row literals) and as range values set by a callRangeValue '
-        'listener with seeded index pairs; odd index spellings (TRUE, "2", 4/2, 1.5, "x", 1/0). '
-        'CHOOSE: n = 1..8 and 253..256 distinct values, ALL ints i in -10..n+10, odd spellings of i. '
-        'MATCH type 1 / omitted: ALL non-decreasing arrays of length <= 4 (quick) / <= 7 (thorough) over {-2,-0.5,0,1,3} with ALL '
-        'of 11 lookup values (each item, between items, below, above); type -1: the reversed arrays; seeded longer sorted arrays '
-        'with int/float duplicates, 0.0 and -0.0; sorted lower-case text with ""; unsorted and mixed arrays (model comparison only). '
-        'MATCH type 0: numeric arrays with duplicates, present and absent values; text arrays in mixed case with literal, '
-        'case-changed, ? and * patterns, present and absent, 40% of them right after a criteria function (COUNTIF/SUMIF/COUNTIFS/AVERAGEIF) or a MATCH in another letter case was evaluated on the same array and text in the same process. INDEX(A,MATCH(x,A,0)) for every item x of such arrays. '
-        'Direct calls of the three functions on seeded odd arguments (blank, logical, float, text numerals, empty and ragged '
-        'lists, wrong argument counts) for the model comparison only. '
-        'Non-trivial = the position is inside the array / the lookup value is found / 1<=i<=n.')
+RULE = ('formulas evaluated by one shared hotxlfp.Parser (kinds choose, index, match, im) and direct calls (kind fn); every case is '
+        'also put to the Lean model. '
+        'CHOOSE (575 cases): n = 1..8 and 253..256 pairwise distinct literal values (numbers; text); n <= 8: ALL ints i in -10..n+10, '
+        'n >= 253: i in -3..3 and 250..261; the 13 odd spellings below and a blank slot as i on 3 values; CHOOSE(1) without values. '
+        'INDEX: arrays of every shape 1..8 x 1..8 and every flat length 1..8 in both fills (thorough, 105168 cases; quick: flat 1, 3, 8 in '
+        'both fills, 1x1, 2x3, 3x2, 1x8, 8x1, 8x8 and 2*scale seeded shapes in one fill each, about 10000), filled with pairwise distinct '
+        'numbers (ints, negatives, 0, dyadic fractions) or pairwise distinct text (distinct ignoring case, 2+ characters), supplied as a '
+        'list-valued variable; for each array ALL index pairs (r, c) with r in -10..rows+10 (flat: length+10), c in -10..cols+10 and ALL '
+        'single indices, in the forms INDEX(A,r,c), INDEX(A,r), INDEX(A,r,), INDEX(A,,c), INDEX(A), INDEX(A,), INDEX(A,,); '
+        'the same sweeps on array literals (flat 1..8 with , (odd length) or ; (even length), two-row 2x2..2x8, both fills) and on range '
+        'values A1:.. set by a callRangeValue listener (all 72 shapes 0..8 x 1..8 in thorough, 6 fixed + 4*scale seeded in quick, fill '
+        'seeded): complete for the literals flat 3 and 2x2 (thorough: all of width <= 3) and the ranges flat 4 and 3x4, else 12*scale '
+        '(quick) / 60*scale (thorough) seeded entries of the sweep per array; 13 odd index spellings (TRUE, FALSE, "2", "1.0", " 1 ", 4/2, '
+        '2^1, 1.5, 0.0, -0.5, "x", "", 1/0) as row or column index beside omitted / blank / 1 / 2 / 0 on flat 3 (both fills), 2x3 numbers, '
+        '3x2 text (468 cases); a scalar (5, "abc") in place of the array, r in -2..3, c omitted or -2..3 (84 cases). '
+        'MATCH type 1 / -1: ALL non-decreasing arrays of length 0..4 (quick, 126 arrays) / 0..7 (thorough, 792) over {-2,-0.5,0,1,3} with '
+        'ALL of 11 lookup values (each item, between items, below, above), type 1 on the array, -1 on the reversed array, type omitted '
+        'for lengths <= 2; seeded (quick / thorough, each times scale): 300 / 3000 sorted arrays of length 1..12 over 5 number pools with '
+        'duplicates, ints as floats, 0 spelt 0 / 0.0 / -0.0, lookup value an item, item+0.5, below or above, type 1 / -1 / omitted, 30% as '
+        'literals where writable; 120 / 600 sorted arrays of length 1..6 of lower-case text with "" (variable / literal / range); '
+        '200 / 1500 unsorted or mixed number/text arrays of length 0..8 with types 1, -1, 0, omitted, 2, "0", TRUE, 1.0. '
+        'MATCH type 0 (seeded, array as variable 50%, literal 25%, range 25%): 300 / 2500 numeric arrays of length 1..9 with duplicates, '
+        'int/float spellings, present and absent values; 500 / 4000 arrays of length 1..8 over 15 words in mixed case (with "") and a '
+        'lookup text that is an item in original / upper / lower / swapped case (35%), an item with 1-2 stretches replaced by * or '
+        'characters by ? (25%) or one of 26 patterns or the words (40%); 40% of these text cases carry `pre`: COUNTIF / SUMIF / COUNTIFS / '
+        'AVERAGEIF(A,x) or MATCH(UPPER(x) / LOWER(x),A,0) is evaluated first on the same parser, array and text and its answer dropped - '
+        'the MATCH has to answer as it does alone (the model sees the MATCH only); one fixed such case (COUNTIF, then "ap*" in '
+        '{"Banana","Apple","apricot"}). INDEX(A,MATCH(x,A,0)) (kind im): each numeric type-0 case whose x occurs; each of the 15 words in '
+        'a shuffled array of all of them (variable; case-swapped via literal); each item of the distinct flat arrays of length 1..8 in '
+        'both fills (MATCH(x,A,0) alone as well). 12 fixed pairs (text among numbers, numbers among text, "1" and 1, two-dimensional and '
+        'empty lookup arrays, logicals) with types 0, 1, -1. '
+        'Direct calls (kind fn, 800 / 6000 times scale): INDEX / MATCH / CHOOSE on 0..5 arguments from 25 odd values (blank, logicals, '
+        'ints, floats, text numerals, text, "A*", empty, flat, nested, ragged and mixed lists): model comparison only (value, or tag of '
+        'the exception raised). Totals about 21000 cases in quick (39500 at scale 5), 155500 in thorough. '
+        'Model comparison of every case: same error tag or value of identical type (floats within 4 ulp); model answers without opinion '
+        'are skipped. When a proof or the correspondence broke and no case failed: the thorough family at scale 2 without the fn cases, '
+        'oracle only, up to the first failure. A failing INDEX case is shrunk to a smaller array of the same fill that still fails. '
+        'No time or step budgets. Non-trivial = no error and: CHOOSE gave a value / INDEX gave something other than the whole '
+        'array (element, row, column) / MATCH found a position / INDEX(MATCH) gave a value; fn cases never count.')
 TRUSTED = ['Python list/str subscripting, ==, <, > on int/float/bool/str/list (modelled by hand in Model/Fn/Lookup.lean)',
            'fnmatch.fnmatch on patterns without "[" (modelled as globMatch; Props/C18.glob_spec characterises it); '
-           'os.path.normcase is the identity on Linux; str.lower on ASCII']
+           'os.path.normcase is the identity on Linux; str.lower on ASCII',
+           'the oracle\'s own reference: index_wants (acceptable answers per index pair), ref_glob (* = any sequence, ? = one character, '
+           'on lower-cased text), Python <=, >=, max, min, == on numbers and on lower-case ASCII text for types 1 / -1',
+           'one hotxlfp.Parser serves all formula cases: variables A and X are overwritten per case, range values come from a table '
+           'refilled per case through the callRangeValue listener; Parser.parse turns an exception into an error record; array '
+           'literals read back as the written values (-0.0, exponents and quotes are kept out of literals)',
+           'model comparison by fx.record_matches / value_matches: error records by tag, values of identical type, floats sent as exact '
+           'fractions and compared within 4 ulp, model answers "(o ..)" (no opinion) never compared; exceptions of direct calls are '
+           'mapped to a tag by error.from_message',
+           'common.run_check: a disagreement that vanishes when the case runs alone in a fresh interpreter is reported with the '
+           'shortest prefix of the run that reproduces it (a `pre` case carries its history in itself)']
 ASSUMPTIONS = ['a blank argument slot is the same as an omitted index',
+               'index 0 or an omitted index selects the whole row / column / array; a negative index or a position outside the array '
+               'gives an error (any error value), never an element counted from the end or from another row',
+               'the element handed back is the identical Python value (same type: 1 is neither 1.0 nor TRUE; lists item by item); a '
+               'record with both result and error set is wrong',
                'a flat list is one-dimensional and is addressed by position through a single index; with both indices it is read '
-               'as one column (INDEX(v,r,1) = v[r], INDEX(v,r,0) = v[r]); for the remaining index pairs on a flat list an error '
-               'or the element of the one-row reading are both accepted, never anything else',
-               'a nested list is two-dimensional even with a single row or column (for those a single index may also address '
+               'as one column (INDEX(v,r,1) = v[r], INDEX(v,r,0) = v[r]; INDEX(v,0,0) and INDEX(v,0,1) = v, flat or as one-element '
+               'rows, or an error); for the remaining index pairs on a flat list an error or the element of the one-row reading '
+               '(r = 0 or 1, 1 <= c <= length) are both accepted, never anything else',
+               'a nested list is two-dimensional even with a single row or column (for those a single index >= 1 may also address '
                'by position or give an error)',
-               'a whole column is accepted as a flat list or as a list of one-element rows',
-               'INDEX with no index at all, CHOOSE with a non-integer index and indices that are not numbers may give an error',
+               'a whole column is accepted as a flat list or as a list of one-element rows; a whole row is the row list, the whole '
+               'array the array as supplied',
+               'a scalar in the place of the array is a 1x1 array',
+               'INDEX with no index at all (INDEX(A), INDEX(A,), INDEX(A,,)): the statement is silent, any answer is accepted; an index '
+               'that is not an integer literal (logical, text, fraction, quotient, power): an error or a part of the array (the array, a '
+               'row, a column, an element), never anything else',
+               'CHOOSE with an index that is not an integer literal: an error or the value addressed by the integer it denotes (TRUE, '
+               '"1.0", " 1 ", 1.5 -> 1; "2", 4/2, 2^1 -> 2); FALSE, 0.0, -0.5, "x", "", 1/0 and a blank index: an error; outside '
+               '1..n or without values: an error (any)',
                'MATCH with the type omitted is type 1',
-               'MATCH type 0 equality: numbers by value (1 = 1.0), text ignoring case; the lookup text contains no "[" '
+               'MATCH on a flat array of numbers only or of text only gives an error or an int position 1..length; "no such item" is '
+               '#N/A exactly',
+               'MATCH type 0: the FIRST matching position; equality: numbers by value (1 = 1.0), text ignoring case with * and ? as '
+               'wildcards, a number never equals text (#N/A); the lookup text contains no "[" '
                '(fnmatch would read "[seq]" as a character class: MATCH("[a]",{"[a]"},0) is #N/A - kept out of the generator on purpose)',
-               'MATCH of text in an array of numbers or any ordered comparison between text and numbers may give any error',
+               'MATCH type 0 of text in a non-empty array of numbers gives an error (any); types 1 / -1 between text and numbers, on '
+               'unsorted arrays or on text that is not lower-case ASCII are judged only as "an error or a position inside the array"; '
+               'arrays mixing numbers and text, logicals (as item or lookup value), two-dimensional lookup arrays and types other than '
+               '0, 1, -1 (2, "0", TRUE, 1.0) are left to the model comparison',
+               'MATCH types 1 / -1 on an array sorted non-decreasingly / non-increasingly: a position holding the largest item <= x / the '
+               'smallest item >= x (among equal items any position; 0 = 0.0 = -0.0), an error is wrong there; #N/A when no such item '
+               'exists (also on the empty array)',
                'sorted text for types 1/-1 is lower-case ASCII (code-point order = Excel order there)',
-               'INDEX(A,MATCH(x,A,0)) = x is read with the same equality (text ignoring case, no wildcard characters in x)',
-               'CHOOSE takes at most 254 values']
+               'INDEX(A,MATCH(x,A,0)) = x is read with the same equality (a number equal to x by value, a text equal ignoring case: '
+               '"Apple" for x = "apple"); judged only when x occurs in A and has no wildcard characters * ? [',
+               'CHOOSE takes at most 254 values: with more of them an index inside 1..n may give the addressed value or an error']
 EXHAUSTIVE = {'quick': False, 'thorough': True}
 
 _p = [None]
@@ -332,7 +392,7 @@ def cases(rng, ctx):
         if t == -1:
             arr = arr[::-1]
         out.append({'kind': 'match', 'src': rng.choice(['var', 'lit', 'range']), 'arr': arr, 'x': x, 't': t})
-    # unsorted / mixed (model comparison; the oracle only excludes nonsense results)
+    # unsorted / mixed (model comparison; the oracle judges type 0 on pure arrays, else only excludes nonsense results)
     for _ in range((1500 if thorough else 200) * scale):
         n = rng.randrange(0, 9)
         pool = rng.choice([[-2, -1, 0, 1, 2, 0.5], [0, 1, 'a', ''], ['a', 'B', 'c', '', 3], [0, 0.0, '', 5, -5]])
@@ -395,7 +455,7 @@ def cases(rng, ctx):
             for x in a:
                 out.append({'kind': 'im', 'src': rng.choice(['var', 'lit', 'range']), 'arr': a, 'x': x})
                 out.append({'kind': 'match', 'src': 'var', 'arr': a, 'x': x, 't': 0})
-    # text in numbers, numbers in text, two-dimensional lookup arrays (model comparison)
+    # text in numbers, numbers in text, two-dimensional / empty lookup arrays, logicals (mostly model comparison)
     for x, arr in [('a', [1, 2]), (1, ['a', 'b']), ('1', [1]), (1, ['1']), (1, [[1, 2], [3, 4]]), ('a', [['a']]), (0, []), ('', []),
                    ('a', []), (5, []), (True, [1, 2]), (1, [True])]:
         for t in (0, 1, -1):
